@@ -328,7 +328,10 @@ func (p *parser) readNum(b byte) any {
 			}
 			b = p.buf[p.pos]
 		} else {
-			f, _ := strconv.ParseFloat(string(num), 64)
+			f, err := strconv.ParseFloat(string(num), 64)
+			if err != nil {
+				p.raise("%s", err)
+			}
 			return f
 		}
 	case 'e', 'E':
@@ -360,7 +363,10 @@ func (p *parser) readNum(b byte) any {
 		num = append(num, b)
 		p.pos++
 	}
-	f, _ := strconv.ParseFloat(string(num), 64)
+	f, err := strconv.ParseFloat(string(num), 64)
+	if err != nil {
+		p.raise("%s", err)
+	}
 	return f
 }
 
